@@ -1,0 +1,72 @@
+//go:build verif
+
+package actor
+
+// Contracts for property C44, continued (see zz_verif_contracts.go).
+
+//@ property C44
+
+// dispatch: the pool's head goes to a binding with free demand, is recorded as
+// that binding's newest unconfirmed job under the next worker sequence, and only
+// then emitted; what stays in the pool is the old pool minus its dispatched head(s)
+//@ ghost var dispatched int
+
+//@ func (*workPullingProducerController).dispatchPending(x, ctx)
+//@   requires x.bindings != nil && x.nextWorker >= 0
+//@   preserve workPullingProducerController.pending, workPullingProducerController.bindings, workPullingProducerController.nextWorker, bindingWork.unconfirmed, bindingWork.currentSeq, bindingWork.demandUpTo, bindingWork.controller
+//@   loop 1 invariant frame: x.bindings == old(x.bindings) && x.nextWorker >= 0
+//@   loop 1 invariant pool-shrinks: len(x.pending) <= old(len(x.pending)) && dispatched - old(dispatched) <= old(len(x.pending)) - len(x.pending)
+//@   loop 1 invariant same-backing-array: block(x.pending) == old(block(x.pending)) && offset(x.pending) == old(offset(x.pending)) + old(len(x.pending)) - len(x.pending)
+//@   loop 1 invariant pool-is-a-suffix: forall i int :: 0 <= i && i < len(x.pending) ==> x.pending[i] == old(x.pending[i + len(x.pending) - now(len(x.pending))])
+//@   at call 1 of (*workPullingProducerController).emitSequenced assert hands-over-the-head: arg3.messageID == work.messageID && arg3.storeSeq == work.storeSeq && arg3.payload == work.payload
+//@   at call 1 of (*workPullingProducerController).emitSequenced assert recorded-before-emission: arg2 == binding && arg3.workerSeq == binding.currentSeq && arg3.workerSeq <= binding.demandUpTo && len(binding.unconfirmed) >= 1 && binding.unconfirmed[len(binding.unconfirmed)-1] == arg3
+//@   at call 1 of (*workPullingProducerController).emitSequenced ghost dispatched = dispatched + 1
+//@   ensures never-grows-the-pool: len(x.pending) <= old(len(x.pending))
+
+// a binding that ends (worker stopped, companion replaced, protocol violation)
+// gives every unconfirmed job back to the head of the pool, in order, and is
+// forgotten
+//@ func (*workPullingProducerController).endBinding(x, ctx, endpointName, reason)
+//@   closed-heap on
+//@   requires x.bindings != nil && x.nextWorker >= 0
+//@   preserve workPullingProducerController.pending, workPullingProducerController.bindings, workPullingProducerController.nextWorker, bindingWork.unconfirmed
+//@   loop 1 invariant requeues-in-order: -1 <= rangeindex && rangeindex < len(binding.unconfirmed) && len(requeued) == rangeindex + 1 && x.pending == old(x.pending) && binding.unconfirmed == old(binding.unconfirmed) && x.bindings == old(x.bindings) && forall j int :: 0 <= j && j <= rangeindex ==> requeued[j].messageID == binding.unconfirmed[j].messageID && requeued[j].storeSeq == binding.unconfirmed[j].storeSeq && requeued[j].payload == binding.unconfirmed[j].payload
+//@   loop 1 invariant inputs-untouched: forall j int :: 0 <= j && j < len(binding.unconfirmed) ==> binding.unconfirmed[j] == old(binding.unconfirmed[j])
+//@   loop 1 invariant own-buffer: block(requeued) != block(x.pending) && block(requeued) != block(binding.unconfirmed)
+//@   loop 1 invariant pool-untouched: forall j int :: 0 <= j && j < len(x.pending) ==> x.pending[j] == old(x.pending[j])
+//@   ensures unknown-binding-is-a-no-op: !old(has(x.bindings, endpointName)) || old(x.bindings[endpointName]) == nil ==> x.pending == old(x.pending) && len(x.pending) == old(len(x.pending))
+//@   ensures nothing-lost: old(has(x.bindings, endpointName)) && old(x.bindings[endpointName]) != nil ==> len(x.pending) == old(len(x.pending)) + old(len(x.bindings[endpointName].unconfirmed))
+//@   ensures requeued-at-the-head-in-order: old(has(x.bindings, endpointName)) && old(x.bindings[endpointName]) != nil ==> forall j int :: 0 <= j && j < old(len(x.bindings[endpointName].unconfirmed)) ==> x.pending[j].messageID == old(x.bindings[endpointName].unconfirmed[j].messageID) && x.pending[j].storeSeq == old(x.bindings[endpointName].unconfirmed[j].storeSeq) && x.pending[j].payload == old(x.bindings[endpointName].unconfirmed[j].payload)
+//@   ensures old-pool-follows: old(has(x.bindings, endpointName)) && old(x.bindings[endpointName]) != nil ==> forall j int :: 0 <= j && j < old(len(x.pending)) ==> x.pending[j + old(len(x.bindings[endpointName].unconfirmed))] == old(x.pending[j])
+//@   ensures binding-forgotten: old(has(x.bindings, endpointName)) && old(x.bindings[endpointName]) != nil ==> !has(x.bindings, endpointName)
+//@   ensures cursor-stays-valid: x.nextWorker >= 0
+
+// progress = dispatch what can be dispatched, then ask the producer for more
+//@ structural mustcall (*workPullingProducerController).progress: (*workPullingProducerController).dispatchPending, (*workPullingProducerController).allowNextRequest
+
+// a demand grant / confirmation from a verified worker: only an impossible range
+// ends that binding (its jobs are requeued, the controller keeps running); a
+// reordered or duplicated one is absorbed by the monotone watermark
+//@ func (*workPullingProducerController).handleRequest(x, ctx, request)
+//@   requires request != nil && x.bindings != nil && x.nextWorker >= 0
+//@   preserve workPullingProducerController.pending, workPullingProducerController.bindings, workPullingProducerController.nextWorker, bindingWork.unconfirmed, bindingWork.currentSeq, bindingWork.demandUpTo, bindingWork.controller, bindingWork.confirmedSeq
+//@   at call 1 of (*workPullingProducerController).endBinding assert only-an-impossible-range-ends-the-binding: request.ConfirmedSeq() < 0 || request.ConfirmedSeq() > binding.currentSeq || request.RequestUpToSeq() < request.ConfirmedSeq() || request.RequestUpToSeq() > request.ConfirmedSeq() + MaxReliableFlowControlWindow
+//@   at call 1 of (*workPullingProducerController).endBinding assert ends-that-binding: arg2 == binding.endpointName
+//@   at call 1 of (*workPullingProducerController).advanceConfirmed assert confirms-within-dispatched: arg2 == binding && arg3 == request.ConfirmedSeq() && arg3 >= 0 && arg3 <= binding.currentSeq
+//@ structural mustcall (*workPullingProducerController).handleRequest: (*workPullingProducerController).bindingFrom, (*workPullingProducerController).advanceConfirmed, (*workPullingProducerController).progress
+
+//@ func (*workPullingProducerController).handleAck(x, ctx, ack)
+//@   requires ack != nil && x.bindings != nil && x.nextWorker >= 0
+//@   preserve workPullingProducerController.pending, workPullingProducerController.bindings, workPullingProducerController.nextWorker, bindingWork.unconfirmed, bindingWork.currentSeq, bindingWork.demandUpTo, bindingWork.controller, bindingWork.confirmedSeq
+//@   at call 1 of (*workPullingProducerController).endBinding assert only-an-impossible-confirmation-ends-the-binding: ack.ConfirmedSeq() < 0 || ack.ConfirmedSeq() > binding.currentSeq
+//@   at call 1 of (*workPullingProducerController).endBinding assert ends-that-binding: arg2 == binding.endpointName
+//@   at call 1 of (*workPullingProducerController).advanceConfirmed assert confirms-within-dispatched: arg2 == binding && arg3 == ack.ConfirmedSeq() && arg3 >= 0 && arg3 <= binding.currentSeq
+//@   ensures ack-grants-nothing: forall b *bindingWork :: b.demandUpTo == old(b.demandUpTo)
+
+// a worker that stops: its binding ends (jobs requeued, endBinding) and the pool
+// is dispatched again to the remaining workers (progress)
+//@ func (*workPullingProducerController).handleTerminated(x, ctx, msg)
+//@   requires msg != nil && x.bindings != nil && x.nextWorker >= 0 && x.producer != nil
+//@   preserve workPullingProducerController.pending, workPullingProducerController.bindings, workPullingProducerController.nextWorker, bindingWork.unconfirmed, bindingWork.currentSeq, bindingWork.demandUpTo, bindingWork.controller, bindingWork.confirmedSeq
+//@   at call 1 of (*workPullingProducerController).endBinding assert ends-the-stopped-worker: arg2 == endpointName && has(x.bindings, endpointName) && x.bindings[endpointName] == binding && binding.controller != nil
+//@ structural mustcall (*workPullingProducerController).handleTerminated: (*workPullingProducerController).endBinding, (*workPullingProducerController).progress
